@@ -54,6 +54,7 @@ struct Shared {
     /// w<k> with k >= 1: writes do not fail, they take nothing (Ok(0)): write_all reports that as an error (WriteZero)
     wzero: bool,
     zero_writes: usize,
+    failed_reads: usize,
     written: Vec<u8>,
     waker: Option<Waker>,
     dropped: bool,
@@ -155,7 +156,15 @@ impl AsyncRead for Transport {
     fn poll_read(self: Pin<&mut Self>, cx: &mut Context<'_>, buf: &mut ReadBuf<'_>) -> Poll<io::Result<()>> {
         let mut s = self.0.lock().unwrap();
         if s.rerr {
-            // persistent failure (e.g. a reset connection): nothing more is ever read
+            // persistent failure (e.g. a reset connection): nothing more is ever read.  A reader that keeps retrying it would spin
+            // forever: after 10000 failed reads in a row that is reported (as PANIC) and the kind changes so that the run can end.
+            s.failed_reads += 1;
+            if s.failed_reads > 10_000 {
+                if s.failed_reads == 10_001 {
+                    PANIC_COUNT.fetch_add(1, Ordering::SeqCst);
+                }
+                return Poll::Ready(Err(io::Error::new(io::ErrorKind::BrokenPipe, "gave up after 10000 failed reads")));
+            }
             return Poll::Ready(Err(io::Error::new(s.rkind.unwrap_or(io::ErrorKind::ConnectionReset), "injected read error")));
         }
         if !s.inbox.is_empty() {
@@ -524,9 +533,10 @@ impl Driver {
                 wake_reader(&self.shared);
             }
             b'r' => {
-                const KINDS: [io::ErrorKind; 8] = [
+                const KINDS: [io::ErrorKind; 10] = [
                     io::ErrorKind::ConnectionReset, io::ErrorKind::UnexpectedEof, io::ErrorKind::ConnectionAborted, io::ErrorKind::TimedOut,
                     io::ErrorKind::BrokenPipe, io::ErrorKind::Other, io::ErrorKind::InvalidData, io::ErrorKind::NotConnected,
+                    io::ErrorKind::Interrupted, io::ErrorKind::WouldBlock,
                 ];
                 self.shared.lock().unwrap().rkind = Some(KINDS[(id as usize) % KINDS.len()]);
                 self.shared.lock().unwrap().rerr = true;
